@@ -1,8 +1,252 @@
-//! C05 observations (see props/c05.py for the consumer).
-#![allow(unused_imports, dead_code)]
+//! C05 observations (consumer: props/c05.py).
+//!
+//! kinds:  "rule"   Integrator::Simpson{divs}.integrate on a known integrand e^{i(psi + ff z)} over [a, b]  (rule extraction)
+//!         "fiber"  integrand of one setup at the 49 nodes of the default rule + phasematch_fiber_coupling with the default integrator
+//!         "pt"     scalar dump + integrand at a few z for a large-waist collinear setup (correspondence with the generated model)
+//!         "pw"     the property's box: collinear, waists >= 2 mm; along a random direction of the (omega_s, omega_i) plane the point of
+//!                  perfect phase matching is located (Delta k_z = 0 with the pump at omega_s + omega_i, from public wavenumbers) and
+//!                  |phasematch_fiber_coupling| is sampled at detunings spanning +-3.3 pi in Delta k_z L / 2
+//!         "skip"   the library cannot build the generated setup / no phase-matched point on the sampled direction
+#![allow(unused_imports, dead_code, non_snake_case)]
+use crate::c06::{cx, dump_params, dump_values, random_zs};
 use crate::common::*;
-use serde_json::json;
+use serde_json::{json, Value};
+use spdcalc::beam::{Beam, BeamWaist, IdlerBeam, PumpBeam, SignalBeam};
+use spdcalc::dim::ucum::{self, DEG, M, MILLIW, RAD, S, V};
+use spdcalc::jsa::JointSpectrum;
+use spdcalc::math::Integrator;
+use spdcalc::utils::{from_celsius_to_kelvin, frequency_to_wavenumber};
+use spdcalc::*;
+use std::f64::consts::PI;
 
-pub fn run(_args: &[String]) {
-  emit(json!({"kind": "not_implemented", "property": "C05"}));
+const TYPES: [PMType; 5] = [PMType::Type0_o_oo, PMType::Type0_e_ee, PMType::Type1_e_oo, PMType::Type2_e_eo, PMType::Type2_e_oe];
+
+/// collinear setup in the property's box; Err(reason) when the library cannot build it
+fn box_setup(rng: &mut Rng, min_waist: f64, max_waist: f64) -> Result<(SPDC, Value), String> {
+  let metas = CrystalType::get_all_meta();
+  let meta = rng.pick(&metas).clone();
+  let crystal = CrystalType::from_string(meta.id).map_err(|_| "crystal id".to_string())?;
+  let (lo, hi) = match meta.transmission_range {
+    Some(r) => (r.0, r.1),
+    None => return Err("no window".into()),
+  };
+  let pm_type = *rng.pick(&TYPES);
+  let poled = rng.coin();
+  // corners of the box are over-sampled: longest crystal, smallest waists (largest diffraction / walk-off corrections)
+  let length = if rng.below(4) == 0 { 20e-3 } else { rng.log_range(0.5e-3, 20e-3) };
+  let temp_c = rng.range(15., 60.);
+  // wavelengths inside the transparency window (idler up to 2.5 x pump wavelength x 1.25)
+  let lp_lo = lo * 1.05;
+  let lp_hi = hi / 3.4;
+  if lp_hi <= lp_lo {
+    return Err("window too narrow".into());
+  }
+  let lp = rng.range(lp_lo, lp_hi.min(lp_lo * 2.5));
+  let ls = if rng.below(4) == 0 { 2. * lp } else { 2. * lp * rng.range(0.8, 1.25) };
+  let mut waist = |rng: &mut Rng| if rng.below(3) == 0 { min_waist } else { rng.log_range(min_waist, max_waist) };
+  let wp = waist(rng);
+  let ws = waist(rng);
+  let wi = waist(rng);
+  let theta_c = if poled { *rng.pick(&[90., 90., 60., 35., 25.]) } else { 45. };
+  let phi_c = if rng.coin() { 0. } else { rng.range(0., 90.) };
+  let mut cs = CrystalSetup {
+    crystal: crystal.clone(),
+    pm_type,
+    phi: phi_c * DEG,
+    theta: theta_c * DEG,
+    length: length * M,
+    temperature: from_celsius_to_kelvin(temp_c),
+    counter_propagation: false,
+  };
+  let desc = json!({"crystal": meta.id, "pm_type": pm_type.to_str(), "poled": poled, "length_m": length, "temp_c": temp_c,
+    "lambda_p_m": lp, "lambda_s_m": ls, "wp_m": wp, "ws_m": ws, "wi_m": wi, "theta_c_deg_initial": theta_c, "phi_c_deg": phi_c});
+  let built = guarded(move || -> Result<SPDC, String> {
+    let pump: PumpBeam = Beam::new(pm_type.pump_polarization(), 0. * RAD, 0. * RAD, lp * M, BeamWaist::new(wp * M)).into();
+    let signal: SignalBeam = Beam::new(pm_type.signal_polarization(), 0. * RAD, 0. * RAD, ls * M, BeamWaist::new(ws * M)).into();
+    let pp = if poled {
+      PeriodicPoling::try_new_optimum(&signal, &pump, &cs, Apodization::Off).map_err(|e| format!("poling: {}", e))?
+    } else {
+      cs.assign_optimum_theta(&signal, &pump);
+      PeriodicPoling::Off
+    };
+    let mut idler = IdlerBeam::try_new_optimum(&signal, &pump, &cs, &pp).map_err(|e| format!("idler: {}", e))?;
+    idler.set_waist(BeamWaist::new(wi * M));
+    let zs = cs.optimal_waist_position(signal.vacuum_wavelength(), signal.polarization());
+    let zi = cs.optimal_waist_position(idler.vacuum_wavelength(), idler.polarization());
+    Ok(SPDC::new(cs, signal, idler, pump, 1e-9 * M, 100. * MILLIW, 1e-2, pp, zs, zi, 7.6e-12 * M / V))
+  });
+  match built {
+    Ok(Ok(s)) => Ok((s, desc)),
+    Ok(Err(e)) => Err(e),
+    Err(p) => Err(format!("panic: {}", p)),
+  }
+}
+
+/// Delta k_z L / 2 with the pump at omega_s + omega_i, collinear, from public wavenumbers
+fn ff_of(spdc: &SPDC, ws: Frequency, wi: Frequency) -> f64 {
+  let cs = &spdc.crystal_setup;
+  let kp = frequency_to_wavenumber(ws + wi, spdc.pump.refractive_index(ws + wi, cs));
+  let ks = frequency_to_wavenumber(ws, spdc.signal.refractive_index(ws, cs));
+  let ki = frequency_to_wavenumber(wi, spdc.idler.refractive_index(wi, cs));
+  let dk = kp - ks - ki - spdc.pp.k_eff();
+  *(0.5 * cs.length * dk / RAD)
+}
+
+pub fn run(args: &[String]) {
+  let seed = arg_u64(args, 0, 1);
+  let n_pw = arg_u64(args, 1, 12) as usize;
+  let n_pt = arg_u64(args, 2, 4) as usize;
+  let mut rng = Rng::new(seed);
+  let integ = Integrator::default();
+  emit(json!({"kind": "default_integrator", "debug": format!("{:?}", integ)}));
+  // ---- rule extraction
+  for divs in [50usize, 20, 7, 6, 49] {
+    for _ in 0..2 {
+      let psi = rng.range(-3., 3.);
+      let ff = rng.range(-12., 12.);
+      let (a, b) = if rng.coin() { (-1., 1.) } else { (rng.range(-1., 0.5), rng.range(0.6, 2.5)) };
+      let v = guarded(move || Integrator::Simpson { divs }.integrate(|z: f64| Complex::new(0., psi + ff * z).exp(), a, b));
+      match v {
+        Ok(v) => emit(json!({"kind": "rule", "divs": divs, "psi": fx(psi), "ff": fx(ff), "a": fx(a), "b": fx(b), "v": cx(v)})),
+        Err(e) => emit(json!({"kind": "rule_panic", "divs": divs, "why": e})),
+      }
+    }
+  }
+  // ---- correspondence points + composition check in the large-waist regime
+  let mut made = 0;
+  let mut tries = 0;
+  while made < n_pt && tries < 40 * n_pt + 40 {
+    tries += 1;
+    let (spdc, desc) = match box_setup(&mut rng, 0.5e-3, 20e-3) {
+      Ok(x) => x,
+      Err(e) => {
+        emit(json!({"kind": "skip", "why": e}));
+        continue;
+      }
+    };
+    let js = match guarded(|| JointSpectrum::new(spdc.clone(), integ)) {
+      Ok(j) => j,
+      Err(e) => {
+        emit(json!({"kind": "skip", "why": format!("JointSpectrum::new panicked: {}", e)}));
+        continue;
+      }
+    };
+    made += 1;
+    let sigma = fwhm_to_spectral_width(spdc.pump.vacuum_wavelength(), spdc.pump_bandwidth);
+    let ws = spdc.signal.frequency() + rng.range(-0.5, 0.5) * sigma;
+    let wi = spdc.idler.frequency() + rng.range(-0.5, 0.5) * sigma;
+    let zs = random_zs(&mut rng, 3);
+    match guarded(|| (dump_params(&spdc, ws, wi, &zs), dump_values(&spdc, &js, ws, wi, &zs, integ))) {
+      Ok((p, v)) => emit(json!({"kind": "pt", "setup": desc, "id": made, "zs": fxs(&zs), "p": p, "v": v})),
+      Err(e) => emit(json!({"kind": "pt_panic", "setup": desc, "why": e})),
+    }
+    // the 49 nodes of the default rule
+    let nodes: Vec<f64> = (0..=48).map(|i| -1. + (i as f64) * (2. / 48.)).collect();
+    let r = guarded(|| {
+      let f = get_pm_integrand(ws, wi, &spdc);
+      let vals: Vec<Value> = nodes.iter().map(|z| cx(f(*z))).collect();
+      let pmf = *(phasematch_fiber_coupling(ws, wi, &spdc, integ) / PerMeter4::new(1.));
+      (vals, pmf)
+    });
+    if let Ok((vals, pmf)) = r {
+      emit(json!({"kind": "fiber", "setup": desc, "nodes": fxs(&nodes), "vals": vals, "fiber": cx(pmf)}));
+    }
+  }
+  // ---- the property's box
+  let mut made = 0;
+  let mut tries = 0;
+  while made < n_pw && tries < 40 * n_pw + 40 {
+    tries += 1;
+    let (spdc, desc) = match box_setup(&mut rng, 2e-3, 20e-3) {
+      Ok(x) => x,
+      Err(e) => {
+        emit(json!({"kind": "skip", "why": e}));
+        continue;
+      }
+    };
+    let ws0 = spdc.signal.frequency();
+    let wi0 = spdc.idler.frequency();
+    let unit = RAD / S;
+    let w0 = *(ws0 / unit);
+    let w1 = *(wi0 / unit);
+    for _dir in 0..2 {
+      let ang = rng.range(0., 2. * PI);
+      let (cs_, sn_) = (ang.cos(), ang.sin());
+      let at = |t: f64| (ws0 + t * cs_ * unit, wi0 + t * sn_ * unit);
+      let tmax = 0.12 * w0.min(w1);
+      let targets: Vec<f64> = (0..9)
+        .map(|k| if k < 3 { [PI, 2. * PI, 3. * PI][k] * (if rng.coin() { 1. } else { -1. }) } else { rng.range(-3.3 * PI, 3.3 * PI) })
+        .collect();
+      let res = guarded(|| {
+        let g = |t: f64| {
+          let (a, b) = at(t);
+          ff_of(&spdc, a, b)
+        };
+        // locate ff = target along the ray by bracketing + bisection (ff is smooth and, on these ranges, monotone)
+        let solve = |target: f64| -> Option<f64> {
+          let f0 = g(0.) - target;
+          if f0 == 0. {
+            return Some(0.);
+          }
+          for sgn in [1.0f64, -1.0] {
+            let mut step = tmax / 4096.;
+            let mut t_prev = 0.;
+            let mut f_prev = f0;
+            while step <= tmax {
+              let t = sgn * step;
+              let f = g(t) - target;
+              if f == 0. {
+                return Some(t);
+              }
+              if (f > 0.) != (f_prev > 0.) {
+                let (mut lo, mut hi, mut flo) = (t_prev, t, f_prev);
+                for _ in 0..200 {
+                  let mid = 0.5 * (lo + hi);
+                  let fm = g(mid) - target;
+                  if (fm > 0.) == (flo > 0.) {
+                    lo = mid;
+                    flo = fm;
+                  } else {
+                    hi = mid;
+                  }
+                }
+                return Some(0.5 * (lo + hi));
+              }
+              t_prev = t;
+              f_prev = f;
+              step *= 2.;
+            }
+          }
+          None
+        };
+        let t0 = solve(0.)?;
+        let mut samples = vec![];
+        let (a0, b0) = at(t0);
+        let f_pm = *(phasematch_fiber_coupling(a0, b0, &spdc, integ) / PerMeter4::new(1.));
+        samples.push((t0, g(t0), f_pm));
+        for target in targets.iter() {
+          if let Some(t) = solve(*target) {
+            let (a, b) = at(t);
+            let v = *(phasematch_fiber_coupling(a, b, &spdc, integ) / PerMeter4::new(1.));
+            samples.push((t, g(t), v));
+          }
+        }
+        Some(samples)
+      });
+      match res {
+        Ok(Some(samples)) => {
+          made += 1;
+          let zs = [0.0];
+          let (a0, b0) = at(samples[0].0);
+          let p = dump_params(&spdc, a0, b0, &zs);
+          let ss: Vec<Value> = samples.iter().map(|(t, ff, v)| json!({"t": fx(*t), "ff": fx(*ff), "v": cx(*v)})).collect();
+          emit(json!({"kind": "pw", "setup": desc, "dir_rad": ang, "p": p, "samples": ss,
+            "theta_c_deg": *(spdc.crystal_setup.theta / DEG)}));
+        }
+        Ok(None) => emit(json!({"kind": "skip", "why": "no phase-matched point within 12 % detuning on the sampled direction", "setup": desc})),
+        Err(e) => emit(json!({"kind": "pw_panic", "setup": desc, "why": e})),
+      }
+    }
+  }
+  emit(json!({"kind": "done"}));
 }
